@@ -7,6 +7,7 @@ import (
 	"errors"
 	"reflect"
 	"runtime"
+	"sort"
 	"strconv"
 	"strings"
 	"sync"
@@ -59,6 +60,8 @@ type Event struct {
 	Late  bool
 	// register / cleanup
 	Res int
+	// mwend: top-level keys of the result (taken from the value itself: it may not be encodable)
+	Keys []string
 }
 
 type Recorder struct {
@@ -268,13 +271,15 @@ func (s *Sock) deliver(raw []byte, v interface{}) error {
 	return nil
 }
 
+// WriteJSON does what gorilla's does: encode, then write. An encoding error (a NaN, a channel ...) is
+// returned to the caller and nothing is written; a closed socket refuses the write.
 func (s *Sock) WriteJSON(v interface{}) error {
-	b, err := json.Marshal(v)
+	b, encErr := json.Marshal(v)
 	var env map[string]interface{}
-	if err == nil {
+	if encErr == nil {
 		json.Unmarshal(b, &env)
 	} else {
-		env = map[string]interface{}{"marshal_error": err.Error()}
+		env = map[string]interface{}{"marshal_error": encErr.Error()}
 	}
 	g := goid()
 	s.rec.mu.Lock()
@@ -284,8 +289,23 @@ func (s *Sock) WriteJSON(v interface{}) error {
 		delete(s.rec.gRun, g)
 	}
 	s.writes++
-	if s.FailWrite > 0 && s.writes >= s.FailWrite {
-		s.rec.addLocked(Event{Kind: "writefail", Env: env, Run: run})
+	isClosed := false
+	select {
+	case <-s.closed:
+		isClosed = true
+	default:
+	}
+	switch {
+	case encErr != nil:
+		s.rec.addLocked(Event{Kind: "writefail", Env: env, Run: run, ID: "encode"})
+		s.rec.mu.Unlock()
+		return encErr
+	case isClosed:
+		s.rec.addLocked(Event{Kind: "writefail", Env: env, Run: run, ID: "closed"})
+		s.rec.mu.Unlock()
+		return errors.New("write: use of closed connection")
+	case s.FailWrite > 0 && s.writes >= s.FailWrite:
+		s.rec.addLocked(Event{Kind: "writefail", Env: env, Run: run, ID: s.FailMode})
 		s.rec.mu.Unlock()
 		if s.FailMode == "close" {
 			s.Close() // the peer has gone away: reads fail from now on
@@ -299,7 +319,10 @@ func (s *Sock) WriteJSON(v interface{}) error {
 }
 
 func (s *Sock) Close() error {
-	s.once.Do(func() { close(s.closed) })
+	s.once.Do(func() {
+		close(s.closed)
+		s.rec.add(Event{Kind: "sockclose"})
+	})
 	return nil
 }
 
@@ -376,6 +399,12 @@ func (r *Recorder) middleware(input *graphql.ComputationInput, next graphql.Midd
 		e.Cancel = graphql.ErrorCause(out.Error) == context.Canceled
 	} else {
 		e.Current = roundTrip(out.Current)
+		if m, ok := out.Current.(map[string]interface{}); ok {
+			for k := range m {
+				e.Keys = append(e.Keys, k)
+			}
+			sort.Strings(e.Keys)
+		}
 	}
 	e.Previous = roundTrip(input.Previous)
 	r.mu.Lock()
